@@ -126,7 +126,8 @@ func decorate(r *rand.Rand, gp *GenParams, n *STree, isRoot bool, lenMode, supMo
 		n.Name = fmt.Sprintf("N%s%d", gp.Prefix, *ctr)
 	}
 	if r.Float64() < gp.Comments {
-		n.Cm = append(n.Cm, fmt.Sprintf("c%d", r.Intn(100)))
+		// comment texts with blanks at either end or inside (kept verbatim by writer and reader; seeded C01-8 trimmed them)
+		n.Cm = append(n.Cm, fmt.Sprintf([]string{"c%d", "c%d", " c%d", "c%d ", " c %d "}[r.Intn(5)], r.Intn(100)))
 		if r.Float64() < 0.3 {
 			n.Cm = append(n.Cm, fmt.Sprintf("&k=%d", r.Intn(100)))
 			if r.Float64() < 0.5 {
@@ -136,7 +137,7 @@ func decorate(r *rand.Rand, gp *GenParams, n *STree, isRoot bool, lenMode, supMo
 		}
 	}
 	if !isRoot && n.Len != NILU && r.Float64() < gp.Comments {
-		n.Ecm = append(n.Ecm, fmt.Sprintf("e%d", r.Intn(100)))
+		n.Ecm = append(n.Ecm, fmt.Sprintf([]string{"e%d", "e%d", " e%d", "e%d ", " e %d "}[r.Intn(5)], r.Intn(100)))
 	}
 	for _, c := range n.Ch {
 		decorate(r, gp, c, false, lenMode, supMode, ctr)
